@@ -24,8 +24,9 @@ printf '%s\n' $IDS | xargs -P 3 -I{} bash -c 'run_one {}' | sort > $OUT.part
 # merge: rows of the ids just run replace the old ones
 touch $OUT; python3 - $OUT $OUT.part <<'PY'
 import sys
-old={l.split('\t')[0]:l for l in open(sys.argv[1]) if l.strip()}
-new={l.split('\t')[0]:l for l in open(sys.argv[2]) if l.strip()}
+import re
+old={l.split('\t')[0]:l for l in open(sys.argv[1]) if re.match(r'C\d\d-\S+\t', l)}
+new={l.split('\t')[0]:l for l in open(sys.argv[2]) if re.match(r'C\d\d-\S+\t', l)}
 old.update(new)
 open(sys.argv[1],'w').write(''.join(old[k] for k in sorted(old)))
 PY
